@@ -1340,14 +1340,27 @@ class Executor(object):
         return res
 
     def havoc_loc(self, st, loc, env):
-        """loc: 'param._attr' (one object) or 'Class._attr[*]' (all objects)"""
+        """loc: 'param._attr' (one object) or 'Class._attr[*]' (all objects), optionally
+        followed by ' if <spec condition over the pre-state>' (conditional frame)"""
+        cond = None
+        if " if " in loc:
+            loc, _, ctext = loc.partition(" if ")
+            loc = loc.strip()
+            tmp = st.copy()
+            tmp.env = env
+            cond = self.spec_eval(ctext, tmp, None, None)
+
+        def pick(new, old):
+            return new if cond is None else z3.If(cond, new, old)
+
         if loc.endswith("[*]"):
             key = loc[:-3]
             f = self.schema[key]
             arr, na = self.heap_arrays(st, key, f)
             self.fresh_n += 1
-            st.heap[key] = (z3.Const("hv_%s!%d" % (key.replace(".", "_"), self.fresh_n), arr.sort()),
-                            z3.Const("hvn_%s!%d" % (key.replace(".", "_"), self.fresh_n), na.sort()) if na is not None else None)
+            nm = key.replace(".", "_")
+            st.heap[key] = (pick(z3.Const("hv_%s!%d" % (nm, self.fresh_n), arr.sort()), arr),
+                            pick(z3.Const("hvn_%s!%d" % (nm, self.fresh_n), na.sort()), na) if na is not None else None)
             return
         base, _, attr = loc.rpartition(".")
         tmp = st.copy()
@@ -1362,13 +1375,10 @@ class Executor(object):
         arr, na = self.heap_arrays(st, key, f)
         self.fresh_n += 1
         fv = z3.Const("hv_%s!%d" % (attr, self.fresh_n), arr.sort().range())
-        arr2 = z3.Store(arr, obj.t, fv)
+        arr2 = pick(z3.Store(arr, obj.t, fv), arr)
         na2 = na
         if na is not None:
-            if f.kind.startswith("map:"):
-                na2 = z3.Store(na, obj.t, z3.Const("hvdom_%s!%d" % (attr, self.fresh_n), na.sort().range()))
-            else:
-                na2 = z3.Store(na, obj.t, z3.Bool("hvn_%s!%d" % (attr, self.fresh_n)))
+            na2 = pick(z3.Store(na, obj.t, z3.Const("hvn_%s!%d" % (attr, self.fresh_n), na.sort().range())), na)
         if f.kind == "bits":
             st.assume(self.bits.wf(fv))
         st.heap[key] = (arr2, na2)
